@@ -167,6 +167,7 @@ class PeriodicReportsHandler:
 
             with self._mdib.mdib_lock:
                 mdib_version = self._mdib.mdib_version
+                mdib_version_group = self._mdib.mdib_version_group  # the version the copies belong to
                 metric_states = [self._mdib.states.descriptor_handle.get_one(h).mk_copy() for h in metrics]
                 component_states = [self._mdib.states.descriptor_handle.get_one(h).mk_copy() for h in components]
                 alert_states = [self._mdib.states.descriptor_handle.get_one(h).mk_copy() for h in alerts]
@@ -186,21 +187,21 @@ class PeriodicReportsHandler:
             if metric_states:
                 periodic_states = PeriodicStates(mdib_version, metric_states)
                 srv.send_periodic_metric_report(
-                    [periodic_states], self._mdib.mdib_version_group)
+                    [periodic_states], mdib_version_group)
             if component_states:
                 periodic_states = PeriodicStates(mdib_version, component_states)
                 srv.send_periodic_component_state_report(
-                    [periodic_states], self._mdib.mdib_version_group)
+                    [periodic_states], mdib_version_group)
             if alert_states:
                 periodic_states = PeriodicStates(mdib_version, alert_states)
                 srv.send_periodic_alert_report(
-                    [periodic_states], self._mdib.mdib_version_group)
+                    [periodic_states], mdib_version_group)
             if operational_states:
                 periodic_states = PeriodicStates(mdib_version, operational_states)
                 srv.send_periodic_operational_state_report(
-                    [periodic_states], self._mdib.mdib_version_group)
+                    [periodic_states], mdib_version_group)
             if context_states:
                 ctx_srv = self._hosted_services.context_service
                 periodic_states = PeriodicStates(mdib_version, context_states)
                 ctx_srv.send_periodic_context_report(
-                    [periodic_states], self._mdib.mdib_version_group)
+                    [periodic_states], mdib_version_group)
